@@ -313,6 +313,36 @@ class Flow:
             self.note("the dt column of the corrected increments differs from the raw one")
         return ok
 
+    @_safe(True)
+    def on_predict(self, increment, raw, T):
+        """The increment handed to predict at a measurement epoch is the fraction (epoch - T) / dt of the NEXT raw increment corrected by
+        the current sensor estimates: its dt lies in [0, dt), and theta / dv are that fraction of the corrected row (s11 item 4)."""
+        if raw is None:
+            return True
+        TH, DV = ['theta_x', 'theta_y', 'theta_z'], ['dv_x', 'dv_y', 'dv_z']
+        later = raw.index[np.asarray(raw.index, float) > float(T)]
+        if len(later) == 0:
+            self.note("predict was called after the last increment")
+            return False
+        row = raw.loc[later[0]]
+        dt = float(row['dt'])
+        frac = float(increment['dt']) / dt
+        ok = True
+        if not (-1e-12 <= frac < 1.0 + 1e-12):
+            ok = False
+            self.note("predict was handed an increment of %.6g s although the interval to the next sample is %.6g s" % (float(increment['dt']), dt))
+        for mdl, cols in ((self.gm, TH), (self.am, DV)):
+            r = np.asarray(row[cols].values, float)
+            full = r if mdl is None else np.linalg.solve(np.asarray(mdl.transform, float), r - np.asarray(mdl.bias, float) * dt)
+            want = frac * full
+            got = np.asarray(increment[cols].values, float)
+            tol = 1e-9 * np.abs(want) + 1e-6 * np.abs(frac * (full - r)) + 1e-300
+            if got.shape != want.shape or not (np.abs(got - want) <= tol).all():
+                ok = False
+                self.note("the increment handed to predict is not the fraction %.6g of the next raw increment corrected by the current %s estimates (deviation %.3g)"
+                          % (frac, "gyro" if cols is TH else "accelerometer", float(np.abs(got - want).max()) if got.shape == want.shape else float("nan")))
+        return ok
+
     @_safe(0)
     def snapshot(self, t):
         est = []
@@ -632,7 +662,9 @@ def run_task(m, task):
         def predict(self, increment):
             out = BaseInt.predict(self, increment)
             rec.flags.add("predict")
-            state["pred"] = dict(frm=float(self.get_time()), sdt=float(increment['dt']))
+            fl = state.get("flow")
+            state["pred"] = dict(frm=float(self.get_time()), sdt=float(increment['dt']),
+                                 ok=fl.on_predict(increment, state.get("raw_incs"), self.get_time()) if fl is not None else True)
             return out
 
         def set_pva(self, p):
@@ -650,6 +682,11 @@ def run_task(m, task):
                 if pr is not None:
                     ln["pfrom"] = pr["frm"]
                     ln["psign"] = (pr["sdt"] > 0) - (pr["sdt"] < 0)
+                    # ... and the predicted state is the state AT the epoch: T + (dt handed to predict) = the time the measurement models were asked for
+                    reach = abs(pr["frm"] + pr["sdt"] - ln["t"]) <= 8 * float(np.spacing(max(abs(ln["t"]), abs(pr["frm"]), 1.0))) + 1e-9 * abs(pr["sdt"])
+                    if not reach and fl is not None:
+                        fl.note("predict was handed an interval of %.9g s from T = %.9g although the measurement epoch is %.9g" % (pr["sdt"], pr["frm"], ln["t"]))
+                    ln["pred_ok"] = bool(pr.get("ok", True)) and bool(reach)
             else:
                 rec.flags.add("set_pva_outside_measurement")
 
@@ -840,7 +877,7 @@ def run_task(m, task):
     if flow is not None and flow.error:
         obs.pop("flow", None)                    # the dataflow observer broke: its verdicts are void (and the run is a machinery error)
         for ln in rec.lines:
-            for k in ("c", "set_ok", "set_bit", "upd_ok", "psnap", "pexp", "dt_ok", "dt_bit", "fq_ok", "fq_bit"):
+            for k in ("c", "set_ok", "set_bit", "upd_ok", "pred_ok", "psnap", "pexp", "dt_ok", "dt_bit", "fq_ok", "fq_bit"):
                 ln.pop(k, None)
         out["harness_error"] = flow.error
     return out
@@ -903,7 +940,7 @@ def abstract_record(rec, tid):
                            c=[dict(s=c["s"], pin=c["pin"], pout=c["pout"], xin=c["xin"], xout=c["xout"], pin_bit=c["pin_bit"], pin_ok=c["pin_close"],
                                    xin_ok=c["xin_ok"], xin_bit=c["xin_bit"], args_ok=c["args_ok"], out_ok=c.get("out_ok", True)) for c in ln.get("c", [])],
                            set_ok=bool(ln.get("set_ok", True)), set_bit=bool(ln.get("set_bit", True)), upd_ok=bool(ln.get("upd_ok", True)),
-                           pva_ok=bool(ln.get("pva_ok", True))))
+                           pva_ok=bool(ln.get("pva_ok", True)), pred_ok=bool(ln.get("pred_ok", True))))
         elif kind == "fb":
             ev.append(dict(a="A", T=R(ln["T"]), batch=[R(x) for x in ln["batch"]], T2=R(ln["T2"]),
                            dpos=bool(ln["dt"] is not None and ln["dt"] > 0),
